@@ -37,7 +37,7 @@ def main(argv):
             for mac in MACS:
                 for enc in (("auto", "no") if cfg["priv"] else ("auto",)):
                     for body in ("resp", "report"):
-                        for mis in (None, "user", "engine", "msgid", "rid"):
+                        for mis in (None, "user", "engine", "msgid", "rid", "msgid-2^31", "rid-2^31", "rid+2^32"):
                             if mis and (mac != "valid" or enc != "auto") and not thorough:
                                 continue
                             spec = {"vbs": vb.hex(), "mac": mac, "encrypt": enc}
@@ -51,6 +51,12 @@ def main(argv):
                                 spec["msgid"] = 4242
                             elif mis == "rid":
                                 spec["rid"] = 171717
+                            elif mis == "msgid-2^31":
+                                spec["msgid"] = "same-2147483648"
+                            elif mis == "rid-2^31":
+                                spec["rid"] = "same-2147483648"
+                            elif mis == "rid+2^32":
+                                spec["rid"] = "same+4294967296"
                             sc["steps"].append({"op": "get", "args": ["1.3.6.1.2.1.1.5.0"], "replies": [[spec]]})
                             meta.append({"mac": mac, "enc": enc, "body": body, "mis": mis, "priv": bool(cfg["priv"]), "alg": cfg["auth"][0]})
             scs.append(sc)
@@ -75,10 +81,10 @@ def main(argv):
                 if mt["mis"]:
                     # a mismatching user / engine id / message id / request-id must be dropped whatever the MAC
                     # (a Report is exempt from the request-id test only)
-                    exempt = mt["body"] == "report" and mt["mis"] == "rid"
+                    exempt = mt["body"] == "report" and mt["mis"].startswith("rid")
                     if delivered and not exempt:
                         c.violation("a reply with a wrong %s was delivered (%s)" % (mt["mis"], got), {"scenario": dict(sc, steps=[st]), "case": mt, "outcome": out},
-                                    key="accepted-mismatch:" + mt["mis"])
+                                    key="accepted-mismatch:" + mt["mis"].split("-")[0].split("+")[0])
                     continue
                 if mt["body"] == "report":
                     continue        # Reports may be accepted without authentication
